@@ -114,7 +114,15 @@ func caseRepoHistory(r *rng.R, n int) string {
 		drivers = []string{"common", "common/drv.a", "common/drv.a", "common/lib.a", "a.a", "shared.a"}
 		count("caserepo.subdir")
 	}
-	if len(ops) == 0 && r.Chance(10) {
+	if r.Chance(8) {
+		// a hand-written case file whose driver exists and whose script was never created (or was deleted by hand)
+		os.WriteFile(filepath.Join(dir, "p.json"), []byte(`{"Name":"d","TestDriverSource":"p.a","TestScript":"ghost.lua"}`), 0600)
+		os.WriteFile(filepath.Join(dir, "p.a"), []byte("text"), 0600)
+		ops = append(ops, "plantcase:p.json:p.a:ghost.lua")
+		outs = append(outs, "ok|"+dirListing(dir))
+		names = append(names, "p", "p")
+		count("caserepo.ghostscript")
+	} else if len(ops) == 0 && r.Chance(10) {
 		// a case file that is a symbolic link to a file kept elsewhere: a case file like any other; it shares its driver
 		ext, err := os.MkdirTemp("", "verif-repoext")
 		if err != nil {
@@ -135,6 +143,10 @@ func caseRepoHistory(r *rng.R, n int) string {
 		switch k := r.Intn(10); {
 		case k < 4:
 			nm := names[r.Intn(len(names))]
+			if r.Chance(6) {
+				// a case name inside a sub directory that does not exist: newcase fails, and leaves everything alone
+				nm = "nodir/" + nm
+			}
 			if r.Chance(60) {
 				if viaCmd {
 					err = commands.NewCaseCommand([]string{"-c", cfgFile, "-p", nm, "-d", "d"})
